@@ -286,6 +286,17 @@ func workerMain() {
 		defer pprof.StopCPUProfile()
 	}
 	g := newGen(os.Getenv("C11_TIER") == "thorough")
+	if lf := os.Getenv("C11_LISTIDS"); lf != "" { // debugging: print the ids of a family
+		f := g.family(lf)
+		for i := int64(0); i < f.Size(); i++ {
+			if l, ok := f.(*lazyFamily); ok {
+				fmt.Println(i, l.ids[i])
+			} else {
+				fmt.Println(i, f.Case(i).ID)
+			}
+		}
+		os.Exit(0)
+	}
 	if sf := os.Getenv("C11_SRCFILE"); sf != "" { // ad-hoc replay of one source file
 		b, _ := os.ReadFile(sf)
 		kind := kindRun
